@@ -8,7 +8,7 @@ from .wasm import I32, I64, Module, Func
 
 WRAP = ['pthread_mutex_init', 'pthread_mutex_destroy', 'pthread_mutex_lock', 'pthread_mutex_unlock', 'pthread_cond_init',
         'pthread_cond_destroy', 'pthread_cond_wait', 'pthread_cond_timedwait', 'pthread_cond_signal', 'pthread_cond_broadcast',
-        'pthread_create', 'pthread_join']
+        'pthread_create', 'pthread_join', 'clock_gettime', 'gettimeofday']
 WRAP_FLAGS = ['-Wl,' + ','.join('--wrap=' + w for w in WRAP)]
 OFF = 16          # static offset of every wait / notify / atomic store in the harness module
 MAXPAGES = 6
@@ -111,6 +111,8 @@ def run_case(case, asan=True, timeout=60):
             extra['pages'], extra['size'], extra['max'] = int(p[1]), int(p[2]), int(p[3])
         elif p[0] == 'S':
             extra['steps'], extra['switches'], extra['spurious'], extra['timeouts'], extra['decisions_used'] = [int(x) for x in p[1:6]]
+        elif p[0] == 'EARLY':
+            extra.setdefault('early', []).append(tuple(int(x) for x in p[1:5]))
         elif p[0] == 'STUCK':
             extra['stuck'] = True
         elif p[0] == 'TRAP':
